@@ -3,6 +3,7 @@ package v3sim
 import (
 	"errors"
 	"fmt"
+	"strings"
 	"testing"
 
 	configapi "github.com/onosproject/onos-api/go/onos/config/v3"
@@ -13,49 +14,108 @@ import (
 
 const prop = "C20"
 
-// Finding ids of C20 (see checks.fragment.json / the report).
+// Finding ids C20 knows about. The first group is C20's own; the second group
+// belongs to C15 (the stores) and is only used to exclude its shape here.
 const (
-	fNilMap   = "F-v3-nil-committed-values"
-	fAlias    = "F-v3-applied-aliases-committed"
-	fLoopVar  = "F-v3-store-loopvar"
-	fGrpcCode = "F-v3-grpc-code-unwrapped"
-	fConflict = "F-v3-conflict-swallowed"
-	fWakeup   = "F-v3-lost-wakeup"
+	fNilMap     = "F-v3-nil-committed-values"
+	fConflict   = "F-v3-conflict-swallowed"
+	fWakeup     = "F-v3-lost-wakeup"
+	fGrpcCode   = "F-v3-grpc-code-unwrapped"
+	fRbStuck    = "F-v3-stuck-after-rollback"
+	fRbRevision = "F-v3-rollback-marks-unapplied-revision"
+	fRbWakeup   = "F-v3-lost-wakeup-rollback"
+	fRbFailed   = "F-v3-rollback-behind-failed-change"
+
+	fAlias   = "F-config-applied-aliases-committed" // C15
+	fLoopVar = "F-v3-config-store-loopvar-alias"    // C15
+	fLeak    = "F-config-failed-write-leaks-values" // C15
 )
 
 // switches turns listed findings into counted exclusions.
 func switches() Switches {
 	return Switches{
-		FixNilCommitted: vstat.IsListed(fNilMap),
-		DistinctPaths:   vstat.IsListed(fAlias),
-		OnePath:         vstat.IsListed(fLoopVar),
-		NoTransient:     vstat.IsListed(fGrpcCode),
-		AbortOnConflict: vstat.IsListed(fConflict),
+		FixNilCommitted:   vstat.IsListed(fNilMap),
+		DistinctPaths:     vstat.IsListed(fAlias),
+		OnePath:           vstat.IsListed(fLoopVar),
+		NoTransient:       vstat.IsListed(fGrpcCode),
+		AbortOnConflict:   vstat.IsListed(fConflict),
+		RbSingleTrailing:  vstat.IsListed(fRbStuck),
+		RbOverAppliedOnly: vstat.IsListed(fRbRevision),
+		RbNotBehindFailed: vstat.IsListed(fRbFailed),
 	}
 }
 
 func noteExclusions(x *vstat.Ctx, sw Switches) {
-	if sw.FixNilCommitted {
-		x.Excluded(fNilMap)
-	}
-	if sw.DistinctPaths {
-		x.Excluded(fAlias)
-	}
-	if sw.OnePath {
-		x.Excluded(fLoopVar)
-	}
-	if sw.NoTransient {
-		x.Excluded(fGrpcCode)
-	}
-	if sw.AbortOnConflict {
-		x.Excluded(fConflict)
+	for id, on := range map[string]bool{fNilMap: sw.FixNilCommitted, fAlias: sw.DistinctPaths, fLoopVar: sw.OnePath, fGrpcCode: sw.NoTransient,
+		fConflict: sw.AbortOnConflict, fRbStuck: sw.RbSingleTrailing, fRbRevision: sw.RbOverAppliedOnly, fRbFailed: sw.RbNotBehindFailed} {
+		if on {
+			x.Excluded(id)
+		}
 	}
 }
 
+type caseFacts struct {
+	rollbacks, crashes, transient int
+}
+
+// rollbackCandidates lists the transactions a RollbackChange request may name:
+// the spec's guard, narrowed by the exclusions of listed findings.
+func rollbackCandidates(w *World, x *vstat.Ctx, sw Switches, facts *caseFacts) []int {
+	var out []int
+	cfg := w.Config()
+	for i := w.NTx; i >= 1; i-- {
+		t := w.Tx(i)
+		if !RollbackGuard(t) {
+			continue
+		}
+		if sw.RbSingleTrailing {
+			// F-v3-stuck-after-rollback: after a rollback nothing else can be
+			// committed, so only ONE rollback is requested, of the change the
+			// configuration currently reflects, when no other commit is outstanding
+			ok := facts.rollbacks == 0 && cfg != nil && cfg.Committed.Revision == configapi.Revision(i) &&
+				cfg.Committed.Index == configapi.Index(i) && cfg.Committed.Target == configapi.Index(i) && i == w.NTx
+			if !ok {
+				x.Class("rollback:excluded:" + fRbStuck)
+				continue
+			}
+		}
+		if sw.RbNotBehindFailed {
+			// F-v3-rollback-behind-failed-change: the rollback of change i cannot
+			// start while Committed.Target names a later change that failed
+			// validation (or is still being committed and may fail)
+			ok := true
+			for k := i + 1; k <= w.NTx; k++ {
+				if u := w.Tx(k); u != nil && status(u, Change, Commit) != Complete {
+					ok = false
+				}
+			}
+			if !ok {
+				x.Class("rollback:excluded:" + fRbFailed)
+				continue
+			}
+		}
+		if sw.RbOverAppliedOnly {
+			// F-v3-rollback-marks-unapplied-revision: the rollback of change i
+			// declares revision Rollback.Index applied; excluded when the change
+			// of that index was never applied to the target
+			if r := int(t.Status.Rollback.Index); r > 0 {
+				if u := w.Tx(r); u == nil || status(u, Change, Apply) != Complete {
+					x.Class("rollback:excluded:" + fRbRevision)
+					continue
+				}
+			}
+		}
+		out = append(out, i)
+	}
+	return out
+}
+
 // externalOf turns a generated action into a scheduler External.
-func externalOf(w *World, x *vstat.Ctx, k int, a Action, facts *caseFacts) External {
+func externalOf(w *World, x *vstat.Ctx, sw Switches, k int, a Action, facts *caseFacts) External {
 	name := fmt.Sprintf("#%d %s", k+1, a.Describe())
-	return External{Name: name, Fn: func() error {
+	deferred := false
+	var self External
+	self = External{Name: name, Fn: func() error {
 		switch a.Kind {
 		case "append":
 			i, err := w.AppendChange(pathValues(a.Values, w.NTx+1))
@@ -64,15 +124,20 @@ func externalOf(w *World, x *vstat.Ctx, k int, a Action, facts *caseFacts) Exter
 			}
 			x.Logf("    -> tx%d", i)
 		case "rollback":
-			var eligible []int
-			for i := w.NTx; i >= 1; i-- {
-				if RollbackGuard(w.Tx(i)) {
-					eligible = append(eligible, i)
-				}
+			eligible := rollbackCandidates(w, x, sw, facts)
+			if len(eligible) == 0 && !deferred {
+				// nothing can be rolled back yet: ask again as soon as the controllers are idle
+				deferred = true
+				again := self
+				again.WhenIdle = true
+				again.Name = name + " (again, controllers idle)"
+				w.S.Externals = append([]External{again}, w.S.Externals...)
+				x.Logf("    -> nothing to roll back yet, deferred until the controllers are idle")
+				return nil
 			}
 			if len(eligible) == 0 {
-				x.Class("rollback:guard-false")
-				x.Logf("    -> no transaction satisfies the guard of RollbackChange")
+				x.Class("rollback:not-requested")
+				x.Logf("    -> no transaction to roll back (guard of RollbackChange, or excluded shape)")
 				return nil
 			}
 			i := eligible[a.Pick%len(eligible)]
@@ -104,7 +169,9 @@ func externalOf(w *World, x *vstat.Ctx, k int, a Action, facts *caseFacts) Exter
 			w.Obs.Observe("stop")
 		case "start":
 			w.StartTarget()
-			return w.LinkUp()
+			if w.Links() == 0 {
+				return w.LinkUp()
+			}
 		case "crash":
 			facts.crashes++
 			w.S.Crash()
@@ -120,10 +187,7 @@ func externalOf(w *World, x *vstat.Ctx, k int, a Action, facts *caseFacts) Exter
 		}
 		return nil
 	}}
-}
-
-type caseFacts struct {
-	rollbacks, crashes, transient int
+	return self
 }
 
 // txTerminal reports whether transactions[i] reached the end of its current
@@ -133,6 +197,69 @@ func txTerminal(t *configapi.Transaction) bool {
 		return isRolledBack(t)
 	}
 	return isChanged(t)
+}
+
+// run is one execution of a case.
+type run struct {
+	w     *World
+	x     *vstat.Ctx
+	sw    Switches
+	facts *caseFacts
+}
+
+func (r *run) finish(err error) error {
+	w := r.w
+	if err == nil {
+		err = w.Obs.Viol
+	}
+	for id, what := range w.Obs.Hits {
+		r.x.Known(id, what)
+	}
+	if errors.Is(err, ErrBudget) {
+		return vstat.Violf("did not terminate: %d reconcile steps were not enough to reach quiescence; state %s; history %s", w.S.Steps, w.DescribeState(), w.Obs.HistoryString())
+	}
+	return err
+}
+
+// quiesce runs the controllers until nothing is left to do. Then it looks for
+// lost wake-ups: if reconciling every record once more (what the replay after
+// a process restart does) makes progress, a transaction was ready to move but
+// nothing had enqueued it. done reports a verdict that ends the case.
+func (r *run) quiesce(final bool) (done bool, err error) {
+	w, x := r.w, r.x
+	if err := w.S.Run(); err != nil || w.Obs.Viol != nil {
+		return true, r.finish(err)
+	}
+	for round := 0; ; round++ {
+		before := w.DescribeState()
+		n, err := w.S.ReconcileAll()
+		if err != nil || w.Obs.Viol != nil {
+			return true, r.finish(err)
+		}
+		if n == 0 {
+			return false, nil
+		}
+		id := fWakeup
+		if r.facts.rollbacks > 0 {
+			id = fRbWakeup
+		}
+		if !vstat.IsKnown(prop, id) {
+			return true, r.finish(vstat.Violf("lost wake-up (%s): the controllers were idle, yet reconciling every record once more made progress (%d writes/device calls): nothing had enqueued the transaction that was ready to move; idle state %s; after the extra round %s",
+				id, n, before, w.DescribeState()))
+		}
+		if id == fWakeup {
+			x.Known(id, "a change that is ready to be committed, applied or aborted is never enqueued: the paths that fail a commit, fail an apply or abort an apply return without requeueing the successor, and the configuration watcher only wakes Committed.Target and Applied.Target")
+		} else {
+			x.Known(id, "after a rollback the transaction that is next by ordinal is not the one the controller requeues (index+1) nor one the configuration watcher wakes, so it is never reconciled")
+		}
+		x.Logf("-- known finding %s: an extra round over all records made progress (%d writes), continuing", id, n)
+		if round > 8*(w.NTx+1) {
+			return true, r.finish(vstat.Violf("did not terminate: every extra round over all records keeps making progress; state %s", w.DescribeState()))
+		}
+		if err := w.S.Run(); err != nil || w.Obs.Viol != nil {
+			return true, r.finish(err)
+		}
+	}
 }
 
 func runC20(c C20Case, x *vstat.Ctx) error {
@@ -150,42 +277,38 @@ func runC20(c C20Case, x *vstat.Ctx) error {
 		return err
 	}
 	defer w.Close()
-	for _, id := range []string{fAlias} {
-		if vstat.IsKnown(prop, id) {
-			w.Obs.Tolerate[id] = true
-		}
-	}
 	facts := &caseFacts{}
+	r := &run{w: w, x: x, sw: sw, facts: facts}
 	var sample []string
 	nAppend := 0
+	// With F-v3-stuck-after-rollback listed the single rollback request is only
+	// made once everything appended before it has been committed: the history
+	// is run in two parts, split at the rollback request.
+	var parts [][]External
+	var cur []External
 	for k, a := range c.Actions {
-		w.S.Externals = append(w.S.Externals, externalOf(w, x, k, a, facts))
+		if a.Kind == "rollback" && sw.RbSingleTrailing && len(parts) == 0 {
+			parts = append(parts, cur)
+			cur = nil
+		}
+		cur = append(cur, externalOf(w, x, sw, k, a, facts))
 		sample = append(sample, a.Describe())
 		if a.Kind == "append" {
 			nAppend++
 		}
 	}
+	parts = append(parts, cur)
 	x.Sample(map[string]any{"preempt": c.Preempt, "online": c.Online, "actions": sample})
 	x.Class(fmt.Sprintf("appends:%d", nAppend))
-	w.S.Budget = 5000
+	w.S.Budget = 6000
 	w.S.AbortOnConflict = sw.AbortOnConflict
 	w.S.Monitor = func(StepInfo) error { return w.Obs.Viol }
 
-	finish := func(err error) error {
-		if err == nil {
-			err = w.Obs.Viol
+	for _, p := range parts {
+		w.S.Externals = p
+		if done, err := r.quiesce(false); done {
+			return err
 		}
-		for id, what := range w.Obs.Hits {
-			x.Known(id, what)
-		}
-		if errors.Is(err, ErrBudget) {
-			return vstat.Violf("did not terminate: %d reconcile steps were not enough to reach quiescence; state %s; history %s", w.S.Steps, w.DescribeState(), w.Obs.HistoryString())
-		}
-		return err
-	}
-
-	if err := w.S.Run(); err != nil || w.Obs.Viol != nil {
-		return finish(err)
 	}
 	// The environment settles: target running, one connection, no pending fault.
 	// What follows is the safety form of Termination: at quiescence with the
@@ -201,68 +324,64 @@ func runC20(c C20Case, x *vstat.Ctx) error {
 			return err
 		}
 	}
-	if err := w.S.Run(); err != nil || w.Obs.Viol != nil {
-		return finish(err)
+	if done, err := r.quiesce(true); done {
+		return err
 	}
-	// Lost wake-ups: the controllers are idle. If reconciling every record once
-	// more (what the replay of a process restart does) makes progress, then a
-	// transaction was ready to move but nothing had enqueued it.
-	for round := 0; ; round++ {
-		before := w.DescribeState()
-		n, err := w.S.ReconcileAll()
-		if err != nil || w.Obs.Viol != nil {
-			return finish(err)
+	// Rollbacks happen in reverse order. A requested rollback that waits for
+	// later changes gets what the spec's fairness assumption gives it
+	// (WF on RollbackChange): those later changes are rolled back too.
+	for n := 0; n < w.NTx && !sw.RbSingleTrailing; n++ {
+		cfg := w.Config()
+		waiting := false
+		for i := 1; i <= w.NTx; i++ {
+			if t := w.Tx(i); t != nil && t.Status.Phase == configapi.TransactionStatus_ROLLBACK && status(t, Rollback, Commit) == Pending && cfg != nil && cfg.Committed.Revision > configapi.Revision(i) {
+				waiting = true
+			}
 		}
-		if n == 0 {
+		if !waiting {
 			break
 		}
-		if !vstat.IsKnown(prop, fWakeup) {
-			return finish(vstat.Violf("lost wake-up: the controllers were idle with the target connected, yet reconciling every record once more made progress (%d writes/device calls): nothing had enqueued the transaction that was ready; idle state %s; after the extra round %s",
-				n, before, w.DescribeState()))
+		cand := rollbackCandidates(w, x, sw, facts)
+		if len(cand) == 0 || cfg.Committed.Revision != configapi.Revision(cand[0]) {
+			break
 		}
-		x.Known(fWakeup, "a transaction that is ready to move is not enqueued by anything (the failure, abort and rollback paths do not requeue the successor; the configuration watcher only wakes Committed.Target and Applied.Target)")
-		x.Logf("-- known finding %s: an extra round over all records made progress (%d writes), continuing", fWakeup, n)
-		if round > 8*(w.NTx+1) {
-			return finish(vstat.Violf("did not terminate: every extra round over all records keeps making progress; state %s", w.DescribeState()))
+		ok, err := w.RollbackChange(cand[0])
+		if err != nil {
+			return err
 		}
-		if err := w.S.Run(); err != nil || w.Obs.Viol != nil {
-			return finish(err)
+		if !ok {
+			break
+		}
+		facts.rollbacks++
+		x.Class("end:later-change-rolled-back-for-a-waiting-rollback")
+		x.Logf("-- a rollback waits for later changes: RollbackChange(%d)", cand[0])
+		if done, err := r.quiesce(true); done {
+			return err
 		}
 	}
 	x.Logf("-- quiescent after %d steps: %s", w.S.Steps, w.DescribeState())
 	x.Logf("-- history %s", w.Obs.HistoryString())
 
 	// classes and the non-trivial rule
-	if facts.rollbacks > 0 {
-		x.Class("has:rollback")
-	}
-	if w.S.Crashes > 0 {
-		x.Class("has:crash")
-	}
-	if w.S.MidCalls > 0 {
-		x.Class("has:crash-between-sub-writes")
-	}
-	if w.Obs.SawPartialWrite || w.S.MidCalls > 0 {
-		x.Class("has:partial-write")
-	}
-	if w.Obs.SawRefusedApply {
-		x.Class("has:refused-apply")
-	}
-	if w.Obs.SawTermChange {
-		x.Class("has:term-change")
-	}
-	if w.S.Conflicts > 0 {
-		x.Class("has:write-conflict")
+	partial := w.Obs.SawPartialWrite || w.S.MidCalls > 0
+	for name, on := range map[string]bool{"has:rollback": facts.rollbacks > 0, "has:crash": w.S.Crashes > 0, "has:crash-between-sub-writes": w.S.MidCalls > 0,
+		"has:partial-write": partial, "has:refused-apply": w.Obs.SawRefusedApply, "has:term-change": w.Obs.SawTermChange,
+		"has:write-conflict": w.S.Conflicts > 0, "has:invalid-change": w.Obs.SawInvalid, "has:aborted-apply": w.Obs.SawAborted} {
+		if on {
+			x.Class(name)
+		}
 	}
 	if w.NTx >= 2 {
-		switch {
-		case facts.rollbacks > 0:
+		if facts.rollbacks > 0 {
 			x.NonTrivial("rollback")
-		case w.Obs.SawPartialWrite || w.S.MidCalls > 0:
+		}
+		if partial {
 			x.NonTrivial("partial write")
-		case w.Obs.SawRefusedApply:
+		}
+		if w.Obs.SawRefusedApply {
 			x.NonTrivial("refused apply")
-		case w.Obs.SawTermChange:
+		}
+		if w.Obs.SawTermChange {
 			x.NonTrivial("term change")
 		}
 	}
@@ -287,17 +406,73 @@ func runC20(c C20Case, x *vstat.Ctx) error {
 			x.Class("end:rollback-waits-for-later-changes")
 			break
 		}
-		return finish(vstat.Violf("did not terminate: the controllers are idle, the target is connected, but transaction %d has not finished its %v phase; state %s; history %s",
+		if blockedBehindFailedChange(w, cfg, i, t) && vstat.IsKnown(prop, fRbFailed) {
+			// an invalid change was appended after the rollback had been requested
+			x.Known(fRbFailed, fmt.Sprintf("the rollback of change %d never starts: Committed.Target names the later change %d, which failed validation, and commitRollback only starts when Committed.Target is its own index", i, cfg.Committed.Target))
+			break
+		}
+		return r.finish(vstat.Violf("did not terminate: the controllers are idle, the target is connected, but transaction %d has not finished its %v phase; state %s; history %s",
 			i, t.Status.Phase, w.DescribeState(), w.Obs.HistoryString()))
 	}
 
-	// Consistency once more with nothing outstanding (the loop above already
+	// A transient device error must not fail a change for good.
+	if err := checkTransient(w, x); err != nil {
+		return r.finish(err)
+	}
+
+	// Consistency once more with nothing outstanding (quiesce already
 	// established the fixed point: a full extra round wrote nothing)
 	w.Obs.checkConsistency(w.Obs.snapshot(), true)
-	if w.Obs.Viol != nil {
-		return finish(nil)
+	return r.finish(nil)
+}
+
+// blockedBehindFailedChange is the trigger of F-v3-rollback-behind-failed-change:
+// transaction i waits to commit its rollback, it IS the committed revision (so
+// it is its turn), but Committed.Target names a later change whose commit Failed.
+func blockedBehindFailedChange(w *World, cfg *configapi.Configuration, i int, t *configapi.Transaction) bool {
+	if t.Status.Phase != configapi.TransactionStatus_ROLLBACK || status(t, Rollback, Commit) != Pending || cfg.Committed.Revision != configapi.Revision(i) {
+		return false
 	}
-	return finish(nil)
+	k := int(cfg.Committed.Target)
+	if k <= i || cfg.Committed.Index != cfg.Committed.Target {
+		return false
+	}
+	u := w.Tx(k)
+	return u != nil && status(u, Change, Commit) == Failed
+}
+
+// checkTransient: applyChange/applyRollback mean to retry Unavailable, Canceled
+// and DeadlineExceeded (their own switch statement says so) and to record every
+// other code as the failure of that change. A change recorded as Failed although
+// the only thing the device ever answered to it was one transient error stays
+// failed for ever and, by the blocking rule, stops the log until it is rolled back.
+func checkTransient(w *World, x *vstat.Ctx) error {
+	transient := 0
+	for _, r := range w.Dev.Log() {
+		if !r.Accepted && (r.Code == codes.Unavailable || r.Code == codes.Canceled || r.Code == codes.DeadlineExceeded) {
+			transient++
+		}
+	}
+	if transient == 0 {
+		return nil
+	}
+	for i := 1; i <= w.NTx; i++ {
+		t := w.Tx(i)
+		if t == nil {
+			continue
+		}
+		for _, p := range []*configapi.TransactionPhaseStatus{t.Status.Change.Apply, t.Status.Rollback.Apply} {
+			if p != nil && p.State == configapi.TransactionPhaseStatus_FAILED && p.Failure != nil && strings.Contains(p.Failure.Description, "injected fault") {
+				msg := fmt.Sprintf("transaction %d was recorded as FAILED (%v: %q) for a transient device error that the controller means to retry", i, p.Failure.Type, p.Failure.Description)
+				if vstat.IsKnown(prop, fGrpcCode) {
+					x.Known(fGrpcCode, msg)
+					return nil
+				}
+				return vstat.Violf("%s; state %s", msg, w.DescribeState())
+			}
+		}
+	}
+	return nil
 }
 
 // TestC20_OrderAndConsistency: generated histories of AppendChange /
